@@ -16,3 +16,95 @@ package wallet
 //@   ensures[public-key-has-32-bytes] err == nil ==> len(pubkey) == 32
 //@   ensures[signature-has-64-bytes] err == nil && ok ==> len(sig) == 64
 //@   modifies nothing
+
+// ======================================================================================================================
+// Property C19. External cryptography (argon2, AES-GCM, HMAC-SHA512, bip39, ed25519 key generation) is modelled in the engine
+// or abstracted as functions of their inputs; the algebraic law of authenticated encryption is ASSUMED below. What is proved
+// is what this package adds: the two sides of the key file use the same key-derivation parameters, key, nonce and additional
+// data, so that decrypting what was encrypted with the same password returns exactly the entropy; the recorded address is
+// the index-0 address; only hardened indices reach the derivation and the path index is not altered on the way.
+//@ spec argon2v(pw int, salt int, time int, memory int, threads int, keyLen int) int
+//@ spec cipherKey(c int) int
+//@ spec gcmSeal(key int, nonce int, plaintext int, ad int) int
+//@ spec gcmOpen(key int, nonce int, ciphertext int, ad int) int
+//@ spec gcmValid(key int, nonce int, ciphertext int, ad int) bool
+//@ assume-global[aead-roundtrip] forall k int, n int, p int, a int :: gcmValid(k, n, gcmSeal(k, n, p, a), a) && gcmOpen(k, n, gcmSeal(k, n, p, a), a) == p
+
+//@ func GetEntropyCSPRNG(n)
+//@   trusted
+//@   ensures len(result) == n && fresh(result)
+//@   modifies nothing
+
+// Encrypt and decrypt agree on key, nonce and additional data: what aesGCMEncrypt produced, aesGCMDecrypt opens to the input.
+//@ lemma aes_gcm_roundtrip
+//@   attr uses aead-roundtrip
+//@   vars key []byte, text []byte
+//@   let enc = aesGCMEncrypt(key, text)
+//@   let dec = aesGCMDecrypt(key, enc.0, enc.1)
+//@   assert[decrypts-to-the-input] enc.2 == nil ==> dec.1 == nil && bytesval(dec.0) == bytesval(text)
+
+// Set (new key file) and SetFromJSON (existing key file) derive the same key from the same password and salt.
+//@ lemma kdf_parameters_agree
+//@   vars h1 *passwordHash, h2 *passwordHash, pw string, params argon2Params
+//@   assume h1 != nil && h2 != nil && h1 != h2
+//@   let e1 = h1.Set(pw)
+//@   assume params.Salt.arr == h1.salt.arr && params.Salt.off == h1.salt.off && len(params.Salt) == len(h1.salt)
+//@   let e2 = h2.SetFromJSON(pw, params)
+//@   assert[same-key] h1.password == h2.password
+//@   assert[same-salt] h2.salt.arr == h1.salt.arr && h2.salt.off == h1.salt.off && len(h2.salt) == len(h1.salt) && len(h1.salt) == 16
+
+// derive refuses every non-hardened index.
+//@ func key.derive(k, i) -> (child, err)
+//@   requires k != nil
+//@   ensures[hardened-only] err == nil ==> i >= pow2(31) && child != nil
+//@   ensures[refuses-public-derivation] i < pow2(31) ==> err == ErrNoPublicDerivation && child == nil
+//@   modifies nothing
+
+// Every derivation step gets the parsed segment value plus 2^31 (no wrap-around slips through: a value >= 2^31 would wrap
+// below 2^31 and derive refuses it), so distinct accepted index vectors reach the HMAC with distinct indices.
+//@ func DeriveForPath(path, seed) -> (kp, err)
+//@   at-call derive assert[hardened-index-of-the-segment] i64 < pow2(32) && arg1 == (i64 + pow2(31)) % pow2(32)
+//@   ensures err == nil ==> kp != nil
+//@   modifies nothing
+//@   loop 1
+//@     invariant key != nil
+
+// The public key determines the address.
+//@ func key.toKeyPair(k) -> (kp, err)
+//@   ensures err == nil ==> kp != nil
+//@   modifies nothing
+//@   ensures-local[address-of-the-public-key] err == nil ==> kp.Address == types.addrOfKey(bytesval(public)) && kp.Public.arr == public.arr && kp.Public.off == public.off && len(kp.Public) == len(public) && kp.Private.arr == private.arr
+
+// The base address of a key store is the address derived at index 0 of the account path, from the seed of this mnemonic.
+//@ func keyStoreFromEntropy(entropy) -> (res, rerr)
+//@   ensures[keeps-the-entropy] rerr == nil ==> res != nil && res.Entropy.arr == entropy.arr && res.Entropy.off == entropy.off && len(res.Entropy) == len(entropy)
+//@   modifies nothing
+//@   at-call DeriveForIndexPath assert[index-zero] arg1 == 0 && arg0 == ks
+//@   ensures-local[base-address-is-index-zero] rerr == nil ==> res == ks && ks != nil && ks.BaseAddress == kp.Address && ks.Entropy.arr == entropy.arr && ks.Entropy.off == entropy.off && len(ks.Entropy) == len(entropy)
+
+// The key file records the key store's base address, the salt the key was derived with and the nonce the entropy was sealed with.
+//@ func KeyStore.Encrypt(ks, password) -> (kf, err)
+//@   inline
+//@   requires ks != nil
+//@   ensures-local[records-base-address] err == nil ==> kf.BaseAddress == ks.BaseAddress
+//@   ensures-local[records-the-salt-and-nonce-used] err == nil ==> kf.Crypto.Argon2Params.Salt.arr == derivedKey.salt.arr && kf.Crypto.Argon2Params.Salt.off == derivedKey.salt.off && len(kf.Crypto.Argon2Params.Salt) == len(derivedKey.salt) && kf.Crypto.AesNonce.arr == nonce.arr && kf.Crypto.AesNonce.off == nonce.off && len(kf.Crypto.AesNonce) == len(nonce) && kf.Crypto.CipherData.arr == cipherData.arr && len(kf.Crypto.CipherData) == len(cipherData)
+//@   at-call aesGCMEncrypt assert[seals-the-entropy-under-the-derived-key] arg1.arr == ks.Entropy.arr && arg1.off == ks.Entropy.off && len(arg1) == len(ks.Entropy) && len(arg0) == 32
+//@   ensures[constants] err == nil ==> kf.Version == 1 && kf.Crypto.CipherName == "aes-256-gcm" && kf.Crypto.KDF == "argon2.IDKey"
+
+// Decryption uses the file's own salt, nonce and cipher data and the whole 32-byte derived key.
+//@ func KeyFile.Decrypt(kf, password) -> (ks, err)
+//@   inline
+//@   requires kf != nil
+//@   at-call SetFromJSON assert[file-salt] arg2.Salt.arr == kf.Crypto.Argon2Params.Salt.arr && arg2.Salt.off == kf.Crypto.Argon2Params.Salt.off && len(arg2.Salt) == len(kf.Crypto.Argon2Params.Salt) && arg1 == password
+//@   at-call aesGCMDecrypt assert[file-cipher-data-and-nonce] len(arg0) == 32 && arg1.arr == kf.Crypto.CipherData.arr && arg1.off == kf.Crypto.CipherData.off && len(arg1) == len(kf.Crypto.CipherData) && arg2.arr == kf.Crypto.AesNonce.arr && arg2.off == kf.Crypto.AesNonce.off && len(arg2) == len(kf.Crypto.AesNonce)
+//@   at-call keyStoreFromEntropy assert[the-decrypted-entropy] arg0.arr == entropy.arr && arg0.off == entropy.off && len(arg0) == len(entropy)
+
+// Whole round trip: a key file made by Encrypt decrypts, with the same password, to exactly the entropy it was made from
+// (never "wrong password"); any failure left is bip39's verdict on the entropy size.
+//@ lemma keyfile_roundtrip
+//@   attr uses aead-roundtrip
+//@   vars ks *KeyStore, pw string
+//@   assume ks != nil
+//@   let enc = ks.Encrypt(pw)
+//@   let dec = enc.0.Decrypt(pw)
+//@   assert[same-entropy] enc.1 == nil && dec.1 == nil ==> dec.0 != nil && bytesval(dec.0.Entropy) == bytesval(ks.Entropy)
